@@ -92,6 +92,8 @@ class Prop(BaseProp):
             if os.path.isabs(mods[0].arg):
                 cls = "module-is-absolute-path"
             res.violate(f"{cls}:{tag}", f"module {mods[0].arg!r}, expected {exp_module!r}", wit)
+        if any("@module" in l for _, l in mods[0].content):
+            res.violate(f"module-tag-line-in-module-content:{tag}", f"{[l for _, l in mods[0].content if '@module' in l][:2]}", wit)
         if mdoc:
             res.count("module_doc_pages")
             want = [t for t in mdoc["doc"] if t]
